@@ -34,9 +34,11 @@ import (
 type simErr struct {
 	code gcerrors.ErrorCode
 	msg  string
+	wrap error // e.g. io.EOF or io.ErrUnexpectedEOF of a connection closed by the peer
 }
 
 func (e *simErr) Error() string { return e.msg }
+func (e *simErr) Unwrap() error { return e.wrap }
 
 type simObject struct {
 	data    []byte
@@ -85,14 +87,14 @@ func (b *simBucket) As(any) bool            { return false }
 func (b *simBucket) ErrorAs(error, any) bool { return false }
 func (b *simBucket) Close() error            { return nil }
 func (b *simBucket) Copy(context.Context, string, string, *driver.CopyOptions) error {
-	return &simErr{gcerrors.Unimplemented, "copy"}
+	return &simErr{gcerrors.Unimplemented, "copy", nil}
 }
-func (b *simBucket) Delete(context.Context, string) error { return &simErr{gcerrors.Unimplemented, "delete"} }
+func (b *simBucket) Delete(context.Context, string) error { return &simErr{gcerrors.Unimplemented, "delete", nil} }
 func (b *simBucket) SignedURL(context.Context, string, *driver.SignedURLOptions) (string, error) {
-	return "", &simErr{gcerrors.Unimplemented, "signed url"}
+	return "", &simErr{gcerrors.Unimplemented, "signed url", nil}
 }
 func (b *simBucket) NewTypedWriter(context.Context, string, string, *driver.WriterOptions) (driver.Writer, error) {
-	return nil, &simErr{gcerrors.Unimplemented, "write"}
+	return nil, &simErr{gcerrors.Unimplemented, "write", nil}
 }
 
 func (b *simBucket) ListPaged(_ context.Context, opts *driver.ListOptions) (*driver.ListPage, error) {
@@ -129,7 +131,7 @@ func (b *simBucket) Attributes(_ context.Context, key string) (*driver.Attribute
 	}
 	o, ok := b.objects[key]
 	if !ok {
-		err := &simErr{gcerrors.NotFound, "no such object " + key}
+		err := &simErr{gcerrors.NotFound, "no such object " + key, nil}
 		b.attrErr[key] = err
 		return nil, err
 	}
@@ -155,7 +157,7 @@ func (b *simBucket) NewRangeReader(_ context.Context, key string, offset, length
 	}
 	o, ok := b.objects[key]
 	if !ok {
-		err := &simErr{gcerrors.NotFound, "no such object " + key}
+		err := &simErr{gcerrors.NotFound, "no such object " + key, nil}
 		b.readErr[key] = err
 		return nil, err
 	}
@@ -214,7 +216,12 @@ func blobProvSim(r *simcore.Run) {
 			}
 			code := simcore.Pick(s, []gcerrors.ErrorCode{gcerrors.Unknown, gcerrors.DeadlineExceeded, gcerrors.Canceled, gcerrors.PermissionDenied, gcerrors.Internal, gcerrors.ResourceExhausted, gcerrors.NotFound}, "error-code")
 			r.Count("fault:"+op+":"+code.String(), 1)
-			return &simErr{code, fmt.Sprintf("injected %s on %s %s", code, op, key)}
+			if code == gcerrors.Unknown && s.Draw(2, "connection-closed-by-peer") == 1 {
+				// what an HTTP client reports when the peer closes the connection in the middle of an answer
+				r.Count("fault:"+op+":eof", 1)
+				return &simErr{code, fmt.Sprintf("injected %s on %s %s: EOF", code, op, key), io.EOF}
+			}
+			return &simErr{code, fmt.Sprintf("injected %s on %s %s", code, op, key), nil}
 		}
 		rec := provsim.NewRecorder(r, "cloud_blob")
 		rec.Silent = true // removals are issued in map order: processor calls are logged sorted at quiescent points
